@@ -70,6 +70,9 @@ Ctx(J, d, r, lam) ==
       trH |-> SumSeq([i \in 1..n |-> H[i][i]], n),      \* >= lambda_max(H)   (H is positive definite)
       mu |-> MinSeq(ld2, n),                             \* <= lambda_min(H)   (J'J is positive semi-definite)
       trJ |-> SumSeq([i \in 1..n |-> JtJ[i][i]], n),    \* trace J'J  = |J|_F^2
+      \* the regularisation of some column is at most half an ulp of its diagonal entry of J'J: forming H in
+      \* double absorbs it (classification only; reported with every rejected step as `regime`)
+      absorbed |-> \E i \in 1..n : RSign(JtJ[i][i]) > 0 /\ RLeq(ld2[i], RMul(RPow2(-53), JtJ[i][i])),
       trR |-> SumSeq(ld2, n),                            \* trace lambda D^2
       dmax |-> VMaxAbs(d), dmax2 |-> MaxSeqR(d2, n)]
 
@@ -213,6 +216,8 @@ ScaleClass(J) ==
   LET a == MaxAbs(J)
   IN IF RSign(a) = 0 THEN "zero" ELSE IF RLt(a, Dec(1, -5)) THEN "tiny" ELSE IF RLt(a, Dec(3, -2)) THEN "small"
      ELSE IF RLeq(a, Dec(3, 1)) THEN "unit" ELSE "large"
+Pats == {"zero", "zcol", "dep", "wide", "gen"}
+Regime(c) == IF c.absorbed THEN "reg_absorbed" ELSE "reg_effective"
 Balance(c) ==
   IF RLeq(RMul(Dec(1, 3), c.trR), c.trJ) THEN "Jdominant"
   ELSE IF RLeq(RMul(Dec(1, -3), c.trR), c.trJ) THEN "balanced" ELSE "Rdominant"
@@ -258,6 +263,7 @@ LdltKeys(e) ==
   IN <<"ldlt|" \o pat \o "|" \o sz \o "|" \o k,
        "agree|" \o k \o "|" \o ScaleClass(J),
        "ldlt|scale|" \o ScaleClass(J) \o "|" \o Balance(c),
+       "ldlt|" \o Regime(c) \o "|" \o pat,
        "dphi|" \o (IF RSign(c.nb) = 0 THEN "zero" ELSE DphiClass(c)) \o "|" \o sz,
        "ldlt|lambda|1e" \o ToString(Decade(c.lam)),
        "ldlt|entries|" \o (IF IntEntries(J) THEN "integer" ELSE "double")>>
@@ -302,7 +308,7 @@ TrKeys(e) ==
   LET J == M(e.J)  pat == Pattern(J, e.dep)
       c == Ctx(J, V(e.d), V(e.r), RDiv(R1, RFromDouble(e.Delta)))
   IN <<"tr|" \o pat \o "|" \o SizeClass(e), "tr|Delta|1e" \o ToString(Decade(RFromDouble(e.Delta))),
-       "tr|scale|" \o ScaleClass(J) \o "|" \o Balance(c)>>
+       "tr|scale|" \o ScaleClass(J) \o "|" \o Balance(c), "tr|" \o Regime(c) \o "|" \o pat>>
      \o StKeys(e) \o ShapeKey(e)
 
 \* op "colnorm": colwise_norm(J) for every storage
@@ -349,7 +355,9 @@ Upd(a, e, ln) ==
   LET res == RForce(Check(e))
       ks == Keys(e, res)
       stratum == IF Len(ks) = 0 THEN "-" ELSE ks[1]
-  IN [bad |-> a.bad \o RForce([i \in 1..Len(res) |-> [line |-> ln, op |-> e.op, id |-> e.id, stratum |-> stratum] @@ res[i]]),
+      regime == IF \E i \in 1..Len(ks) : ks[i] \in {"ldlt|reg_absorbed|" \o q : q \in Pats} \cup {"tr|reg_absorbed|" \o q : q \in Pats}
+                THEN "reg_absorbed" ELSE "-"
+  IN [bad |-> a.bad \o RForce([i \in 1..Len(res) |-> [line |-> ln, op |-> e.op, id |-> e.id, stratum |-> stratum, regime |-> regime] @@ res[i]]),
       cov |-> AddKeys(a.cov, ks, 1)]
 
 Init == l = 1 /\ acc = [bad |-> <<>>, cov |-> <<>>]
